@@ -112,7 +112,13 @@ def main():
               {k: v["exit"] for k, v in m.get("checks", {}).items()})
         print(line, flush=True)
         summary.append(line)
-    open(os.path.join(SEEDS, "SUMMARY.txt"), "w").write("\n".join(summary) + "\n")
+    # the summary always lists every seed (from the meta.json files)
+    import glob
+    lines = []
+    for f in sorted(glob.glob(os.path.join(SEEDS, "*", "meta.json"))):
+        m = json.load(open(f))
+        lines.append("%-40s applies=%s suite=%s demo=%s detected=%s %s" % (m["seed"], m.get("applies_to_repo_head"), m.get("suite_passes_with_change"), m.get("demo_discriminates"), m.get("detected_by_owning_check_quick"), {k: v["exit"] for k, v in m.get("checks", {}).items()}))
+    open(os.path.join(SEEDS, "SUMMARY.txt"), "w").write("\n".join(lines) + "\n")
 
 if __name__ == "__main__":
     main()
